@@ -309,10 +309,17 @@ class ChildrenList(list):
         :type item: :py:class:`psyclone.psyir.nodes.Node`
 
         '''
-        for position in range(self.index(item) + 1, len(self)):
+        # The item is located by identity (and not by the structural
+        # equality of nodes) as it is the given node that gets unlinked.
+        for index, child in enumerate(self):
+            if child is item:
+                break
+        else:
+            raise ValueError("ChildrenList.remove(item): item not in list")
+        for position in range(index + 1, len(self)):
             self._validate_item(position - 1, self[position])
         self._del_parent_link(item)
-        super().remove(item)
+        super().__delitem__(index)
         self._node_reference.update_signal()
 
     def pop(self, index=-1):
